@@ -592,6 +592,39 @@ fn run_cmd(modules: &'static [&'static Module], args: &[String]) -> ! {
                 }
             }
         }
+        // ---- phase 1c (C02): from_str / FromStr / as_str on every name and three one-edit neighbours
+        if prop == Prop::C02 && tfsweep {
+            for (mi, m) in el.iter().copied().enumerate() {
+                if m.from_str.is_none() && m.from_str_trait.is_none() && m.as_str.is_none() {
+                    continue;
+                }
+                let mut i = 0usize;
+                while i < m.n() {
+                    let h: Vec<Event> = (i..(i + 64).min(m.n()))
+                        .flat_map(|x| (0u8..4).map(move |k| (x, k)))
+                        .map(|(x, k)| Event {
+                            client: 0,
+                            op: Op::FromStr(x, k),
+                            migrate: false,
+                        })
+                        .collect();
+                    pairs_runs += 1;
+                    if pairs_runs > pair_from && pairs_runs <= pair_to {
+                        set_cur(u64::MAX - 1, m.name, &h);
+                        if trace {
+                            eprintln!("PAIR {} [{}]", m.name, encode_history(&h));
+                        }
+                        let rr = run_history(m, &h, &opts);
+                        sweep_values += h.len() as u64;
+                        total.add_run(u64::MAX - pairs_runs, mi, m, &h, &rr.stats, rr.stats.obs_digest);
+                        if let Some(v) = rr.violation {
+                            report(-(pairs_runs as i64), m, &h, v);
+                        }
+                    }
+                    i += 64;
+                }
+            }
+        }
         total.runs = 0; // counted separately
     }
     let pairs_ops = total.ops;
